@@ -30,6 +30,7 @@ type Engine struct {
 	Assumptions []string
 	MaxSimTime time.Duration
 	MaxSteps   int
+	DrainTime  time.Duration // extra simulated time at shutdown for un-instrumented background goroutines to end
 }
 
 // RunInfo is filled by the engine for evidence.
@@ -147,7 +148,7 @@ func envInt(name string, def int) int {
 }
 
 func (e *Engine) simConfig(keep bool) simrt.Config {
-	return simrt.Config{MaxSimTime: e.MaxSimTime, MaxSteps: e.MaxSteps, KeepLog: keep}
+	return simrt.Config{MaxSimTime: e.MaxSimTime, MaxSteps: e.MaxSteps, KeepLog: keep, DrainTime: e.DrainTime}
 }
 
 func (e *Engine) runOnce(t *testing.T, tape *simrt.Tape, keep bool) (*simrt.Sim, *RunInfo) {
